@@ -216,7 +216,7 @@ func buildCorpus(caseFiles []string, repo string, tier string, rng *rand.Rand) (
 	}
 	{ // JPEG: a profile in 70 and in 200 chunks (more chunks than bits in a machine word), the frame
 		// header ahead of them, then 190 KiB of comments before the scan
-		for _, nch := range []int{64, 65, 70, 200} {
+		for _, nch := range []int{64, 65, 70, 127, 128, 129, 200, 254, 255} {
 			prof := gen.SimpleProfile(nch*40+17, "many chunks", true, uint32(nch))
 			segs := []gen.JSeg{gen.SOI(), gen.JFIF(), gen.SOF(0xC0, 8, 21, 34, gen.StdComps(3, 0x22))}
 			for q, part := range gen.SplitICC(prof, nch) {
@@ -228,6 +228,28 @@ func buildCorpus(caseFiles []string, repo string, tier string, rng *rand.Rand) (
 			segs = append(segs, gen.DQT(0), gen.DHT(0, 0), gen.SOS(3, gen.EntropyBytes(120, 5)), gen.EOI())
 			d, l := gen.BuildJPEG(segs)
 			items = append(items, item{Name: fmt.Sprintf("jpeg:extra-icc%d", nch), Fmt: "jpeg", Data: d, L: l, HasICC: true, Well: true})
+		}
+	}
+	{ // JPEG: APP2 segments that are not ICC chunks (MPF index, FlashPix) ahead of, between and after the chunks
+		prof := gen.SimpleProfile(3000, "app2 neighbours", true, 77)
+		parts := gen.SplitICC(prof, 3)
+		mpf := gen.APP(2, append([]byte("MPF\x00MM\x00*\x00\x00\x00\x08"), gen.Payload(60, 5, true)...))
+		fpx := gen.APP(2, append([]byte("FPXR\x00\x00\x01"), gen.Payload(200, 6, true)...))
+		sof := gen.SOF(0xC0, 8, 21, 34, gen.StdComps(3, 0x22))
+		icc := func(k int) gen.JSeg { return gen.ICCSeg(byte(k), 3, parts[k-1]) }
+		for k, segs := range [][]gen.JSeg{
+			{sof, mpf, icc(1), icc(2), icc(3)},
+			{mpf, sof, icc(1), fpx, icc(2), icc(3)},
+			{fpx, mpf, icc(1), icc(2), icc(3), sof},
+			{icc(1), icc(2), icc(3), mpf, sof},
+		} {
+			all := append([]gen.JSeg{gen.SOI(), gen.JFIF()}, segs...)
+			for q := 0; q < 3; q++ {
+				all = append(all, gen.COM(gen.Payload(65533, uint32(q), true)))
+			}
+			all = append(all, gen.DQT(0), gen.DHT(0, 0), gen.SOS(3, gen.EntropyBytes(120, 5)), gen.EOI())
+			d, l := gen.BuildJPEG(all)
+			items = append(items, item{Name: fmt.Sprintf("jpeg:extra-app2-%d", k), Fmt: "jpeg", Data: d, L: l, HasICC: true, Well: true})
 		}
 	}
 	// PNG: ancillary chunks whose length is at, just below and just above a multiple of 4096,
@@ -592,7 +614,7 @@ func loadsCmd(args []string) error {
 			}
 			for ci, cut := range cutsFor(it, *tier, rng) {
 				for fi, fault := range []string{"eof", "ioerr", "uxeof", "closedpipe"} {
-					if fi >= 2 && (ci+fi)%3 != 0 && *tier != "thorough" {
+					if fi >= 2 && (ci+fi)%3 != 0 { // the sentinel faults at every third cut
 						continue
 					}
 					loaders := []string{it.Fmt, "auto"}
